@@ -530,3 +530,201 @@ pub fn c02(tier: &str, seed: u64) {
   }
   stat_n("oracle.coefficients_checked", coeff_total as u64);
 }
+
+// ---------------------------------------------------------------------------------------------
+// C03: associated data below threshold; C04: tags/keys as a function of the triple
+
+use sta_rs::{MessageGenerator, SingleMeasurement};
+
+fn xor(a: &[u8], b: &[u8]) -> Vec<u8> {
+  a.iter().zip(b.iter()).map(|(x, y)| x ^ y).collect()
+}
+
+pub fn payload_of(m: &[u8], aux: &Option<Vec<u8>>) -> Vec<u8> {
+  let mut d = Vec::new();
+  sta_rs::store_bytes(m, &mut d);
+  if let Some(a) = aux {
+    sta_rs::store_bytes(a, &mut d);
+  }
+  d
+}
+
+pub fn c03(tier: &str, seed: u64) {
+  let mut g = Sm::new(seed, "oracle.C03");
+  let n = if quick(tier) { 40 } else { 500 };
+  for case_i in 0..n {
+    let t = g.range(2, 12) as u32;
+    let m = { let n = g.range(1, 40) as usize; g.blob(n) };
+    let e = g.blob(2);
+    // sequences of 2..4 clients with differing associated data of equal length
+    let alen = *g.pick(&[1usize, 2, 8, 16, 100, 150, 166, 167, 300, 400]);
+    let cnt = g.range(2, 4) as usize;
+    let clients: Vec<Client> = (0..cnt)
+      .map(|_| {
+        let a = g.bytes(alen);
+        make_client(&m, &e, t, Some(a), None)
+      })
+      .collect();
+    for i in 0..cnt {
+      for j in i + 1..cnt {
+        let (a, b) = (&clients[i], &clients[j]);
+        if a.aux == b.aux {
+          continue;
+        }
+        let (ca, cb) = (a.msg.ciphertext.to_bytes(), b.msg.ciphertext.to_bytes());
+        let (pa, pb) = (payload_of(&a.m, &a.aux), payload_of(&b.m, &b.aux));
+        let blk = 166.min(ca.len());
+        let d = vec![
+          ("measurement", hex(&m)),
+          ("epoch", hex(&e)),
+          ("threshold", t.to_string()),
+          ("aux_1", hex(a.aux.as_ref().unwrap())),
+          ("aux_2", hex(b.aux.as_ref().unwrap())),
+          ("ciphertext_1", hex(&ca)),
+          ("ciphertext_2", hex(&cb)),
+          ("xor_equal_on_bytes", format!("0..{}", blk)),
+        ];
+        if xor(&ca[..blk], &cb[..blk]) == xor(&pa[..blk], &pb[..blk]) {
+          // the witness of Lean theorem C03_reports_leak_payload_difference, on the real crate
+          fail("keystream_reuse", &d);
+        }
+        // beyond the first block the relation must not hold when the first blocks differ
+        if ca.len() > 166 + 8 && pa[..166] != pb[..166] && xor(&ca[166..], &cb[166..]) == xor(&pa[166..], &pb[166..]) {
+          fail("keystream_reuse_beyond_first_block", &d);
+        }
+        case(true);
+      }
+    }
+    for c in &clients {
+      let b = c.msg.to_bytes();
+      let a = c.aux.as_ref().unwrap();
+      if a.len() >= 8 {
+        if let Some(off) = contains(&b, a) {
+          fail("aux_in_clear", &[("offset", off.to_string()), ("report", hex(&b))]);
+        }
+        stat("oracle.aux_scans");
+      }
+      // every 16-byte window of the report as decryption key: never a well-framed payload
+      if case_i % 4 == 0 {
+        for w in b.windows(16).step_by(if quick(tier) { 3 } else { 1 }) {
+          let pt = c.msg.ciphertext.decrypt(w, "star_encrypt");
+          if let Some((mm, aa)) = parse_payload(&pt) {
+            if mm == c.m && aa == c.aux {
+              fail("report_window_decrypts_payload", &[("window", hex(w)), ("report", hex(&b))]);
+            }
+          }
+          stat("oracle.key_windows");
+        }
+      }
+    }
+    if case_i == 0 {
+      sample(&[("measurement", hex(&m)), ("aux_len", alen.to_string()), ("ciphertext_1", hex(&clients[0].msg.ciphertext.to_bytes())), ("ciphertext_2", hex(&clients[1].msg.ciphertext.to_bytes()))]);
+    }
+  }
+}
+
+fn triple_outputs(m: &[u8], e: &[u8], t: u32) -> (Vec<u8>, Vec<u8>, Vec<u8>, Vec<u8>) {
+  let mg = MessageGenerator::new(SingleMeasurement::new(m), t, e);
+  let mut rnd = [0u8; 32];
+  mg.sample_local_randomness(&mut rnd);
+  if t > 4096 {
+    // sharing would sample t-1 coefficients; for huge thresholds derive tag and key the way the
+    // client does (public strobe_digest / derive_ske_key) without building the polynomial
+    let mut r0 = [0u8; 32];
+    sta_rs::strobe_digest(&rnd, &[&[0u8]], "star_derive_randoms", &mut r0);
+    let mut tag = [0u8; 32];
+    sta_rs::strobe_digest(&rnd, &[&[2u8]], "star_derive_randoms", &mut tag);
+    let mut key = [0u8; 16];
+    derive_ske_key(&r0, e, &mut key);
+    return (rnd.to_vec(), key.to_vec(), tag.to_vec(), vec![]);
+  }
+  let w = mg.share_with_local_randomness().expect("share");
+  (rnd.to_vec(), w.key.to_vec(), w.tag.to_vec(), share_x(&w.share.to_bytes()))
+}
+
+pub fn c04(tier: &str, seed: u64) {
+  let mut g = Sm::new(seed, "oracle.C04");
+  // the enumerated boundary-shift family: all splits of all strings up to length L over {a, b}
+  let maxlen = if quick(tier) { 4 } else { 6 };
+  let mut seen: std::collections::BTreeMap<Vec<u8>, (Vec<u8>, Vec<u8>, u32)> = Default::default();
+  let mut check_distinct = |m: &[u8], e: &[u8], t: u32, seen: &mut std::collections::BTreeMap<Vec<u8>, (Vec<u8>, Vec<u8>, u32)>| {
+    let (rnd, key, tag, _) = triple_outputs(m, e, t);
+    for (what, v) in [("randomness", rnd), ("key", key), ("tag", tag)] {
+      let mut k = what.as_bytes().to_vec();
+      k.extend(&v);
+      if let Some(prev) = seen.get(&k) {
+        if prev != &(m.to_vec(), e.to_vec(), t) {
+          fail(
+            "different_triples_same_output",
+            &[("output", what.to_string()), ("value", hex(&v)), ("triple_1", format!("m={} e={} t={}", hex(&prev.0), hex(&prev.1), prev.2)), ("triple_2", format!("m={} e={} t={}", hex(m), hex(e), t))],
+          );
+        }
+      } else {
+        seen.insert(k, (m.to_vec(), e.to_vec(), t));
+      }
+    }
+    case(true);
+  };
+  for len in 0..=maxlen {
+    for bits in 0..(1u32 << len) {
+      let s: Vec<u8> = (0..len).map(|i| if bits >> i & 1 == 1 { b'b' } else { b'a' }).collect();
+      for split in 0..=len {
+        check_distinct(&s[..split], &s[split..], 2, &mut seen);
+      }
+    }
+  }
+  stat_n("oracle.boundary_shift_triples", seen.len() as u64 / 3);
+  // thresholds differing in each single bit; prefix pairs; empty components
+  let m0 = g.blob(9);
+  let e0 = g.blob(3);
+  for bit in 0..32 {
+    check_distinct(&m0, &e0, 1u32 << bit, &mut seen);
+    check_distinct(&m0, &e0, (1u32 << bit) | 1, &mut seen);
+  }
+  for l in 0..m0.len() {
+    check_distinct(&m0[..l], &e0, 3, &mut seen);
+    check_distinct(&m0, &m0[..l], 3, &mut seen);
+  }
+  // equal triples: >= 8 independent clients, any aux => equal tag and key, distinct points, combinable
+  let n = if quick(tier) { 25 } else { 300 };
+  for case_i in 0..n {
+    let t = g.range(1, 8) as u32;
+    let m = { let n = g.below(30) as usize; g.blob(n) };
+    let e = { let n = g.below(5) as usize; g.blob(n) };
+    let k = 8.max(t as usize + 1);
+    let clients: Vec<Client> = (0..k).map(|_| make_client(&m, &e, t, gen_aux(&mut g), None)).collect();
+    let (rnd, key, tag, _) = triple_outputs(&m, &e, t);
+    let mut xs = std::collections::BTreeSet::new();
+    for c in &clients {
+      if c.msg.tag != tag || c.rnd[..] != rnd[..] {
+        fail("equal_triples_different_tag", &[("measurement", hex(&m)), ("epoch", hex(&e)), ("threshold", t.to_string())]);
+      }
+      if !xs.insert(share_x(&c.msg.share.to_bytes())) {
+        fail("share_point_repeated_between_clients", &[("measurement", hex(&m)), ("x", hex(&share_x(&c.msg.share.to_bytes())))]);
+      }
+    }
+    // keys: WASM material of independent calls
+    for _ in 0..3 {
+      let (_, k2, t2, _) = triple_outputs(&m, &e, t);
+      if k2 != key || t2 != tag {
+        fail("equal_triples_different_key", &[("measurement", hex(&m)), ("epoch", hex(&e)), ("threshold", t.to_string())]);
+      }
+    }
+    // mutually combinable: any t of them recover
+    let shares: Vec<sta_rs::Share> = clients.iter().rev().take(t as usize).map(|c| c.msg.share.clone()).collect();
+    match share_recover(&shares) {
+      Ok(c) => {
+        let mut kk = vec![0u8; 16];
+        derive_ske_key(&c.get_message(), &e, &mut kk);
+        if kk != key {
+          fail("recovered_key_differs_from_client_key", &[("measurement", hex(&m))]);
+        }
+      }
+      Err(_) => fail("equal_triples_do_not_combine", &[("measurement", hex(&m)), ("threshold", t.to_string())]),
+    }
+    case(true);
+    if case_i == 0 {
+      sample(&[("measurement", hex(&m)), ("epoch", hex(&e)), ("threshold", t.to_string()), ("tag", hex(&tag)), ("key", hex(&key))]);
+    }
+  }
+}
